@@ -239,7 +239,7 @@ pub fn run(outdir: &Path, tier: &str, seed: u64, shards: usize, replay: Option<S
     let cs = CaseSet {
         run_module: "RunC15".into(),
         cases,
-        checkers: vec!["corr".into(), "prop_accept".into(), "prop_display".into(), "prop_roundtrip".into(), "wellformed".into()],
+        checkers: vec!["corr".into(), "corr_wt".into(), "prop_accept".into(), "prop_display".into(), "prop_roundtrip".into(), "wellformed".into()],
         extra_imports: vec!["Json".into(), "RunSerde".into()],
         preludes: vec![],
     };
